@@ -21,7 +21,9 @@
    `stack[index..]` is the longest prefix whose indices are [>= i]
    ([span_ge]).
 
-   Not modelled: `Quirk` (LINENO), `last_modified_location` of positional
+   `Quirk`: a variable carries the flag "has the LineNumber quirk"; the quirk
+   changes what `Variable::expand` yields (not modelled), never what the
+   variable set stores.  Not modelled: `last_modified_location` of positional
    parameters, the text of locations (a location is the number the harness
    put into `Location::dummy`). *)
 From Yv Require Import Common.Base.
@@ -35,10 +37,11 @@ Record var := mkVar {
   vval : option value;          (* value *)
   vloc : option N;              (* last_assigned_location *)
   vexp : bool;                  (* is_exported *)
-  vro : option N                (* read_only_location *)
+  vro : option N;               (* read_only_location *)
+  vquirk : bool                 (* quirk = Some(Quirk::LineNumber) (the only quirk there is) *)
 }.
 
-Definition default_var : var := mkVar None None false None.
+Definition default_var : var := mkVar None None false None false.
 Definition is_ro (v : var) : bool := match vro v with Some _ => true | None => false end.
 
 (* yash_env::variable::Context *)
@@ -165,7 +168,8 @@ Definition get_or_new_stack (cs : list ctx) (sc : scope) (st : list vic) : optio
 Inductive mutation :=
 | MAssign (v : value) (loc : option N)     (* assign(value, location) *)
 | MExport (b : bool)                       (* export(b) *)
-| MReadOnly (loc : N).                     (* make_read_only(location) *)
+| MReadOnly (loc : N)                      (* make_read_only(location) *)
+| MSetQuirk (q : bool).                    (* set_quirk(Some(LineNumber)) / set_quirk(None) *)
 
 Inductive mres :=
 | AOk (old : option value) (oldloc : option N)   (* Ok((old_value, old_location)) *)
@@ -177,11 +181,13 @@ Definition mutate (v : var) (m : mutation) : var * mres :=
   | MAssign x loc =>
       match vro v with
       | Some r => (v, AErr r)
-      | None => (mkVar (Some x) loc (vexp v) (vro v), AOk (vval v) (vloc v))
+      | None => (mkVar (Some x) loc (vexp v) (vro v) (vquirk v), AOk (vval v) (vloc v))
       end
-  | MExport b => (mkVar (vval v) (vloc v) b (vro v), MUnit)
+  | MExport b => (mkVar (vval v) (vloc v) b (vro v) (vquirk v), MUnit)
   | MReadOnly loc =>
-      (mkVar (vval v) (vloc v) (vexp v) (Some (match vro v with Some r => r | None => loc end)), MUnit)
+      (mkVar (vval v) (vloc v) (vexp v) (Some (match vro v with Some r => r | None => loc end)) (vquirk v),
+       MUnit)
+  | MSetQuirk q => (mkVar (vval v) (vloc v) (vexp v) (vro v) q, MUnit)
   end.
 
 Fixpoint mutate_all (v : var) (ms : list mutation) : var * list mres :=
@@ -388,7 +394,12 @@ Definition entry (s : vset) (n : name) (i : nat) : option var :=
        only makes the built-in fail;
      - export, readonly (special): the same with Scope::Global; errors are fatal;
      - unset (special): unset(name, Scope::Global); errors are fatal;
-     - set -- ... : replaces the positional parameters. *)
+     - set -- ... : replaces the positional parameters;
+     - for NAME in WORDS (compound_command/for_loop.rs): before every round
+       get_or_create(NAME, Global) and assign; a read-only error is fatal; no
+       variable context is pushed;
+     - return: the function's two contexts are popped by the guards on this
+       path too; the rest of the function body is not run. *)
 
 Inductive cmd :=
 | CAssign (asgs : list (name * value))                 (* a=v b=w *)
@@ -403,10 +414,22 @@ Inductive cmd :=
 | CUnset (n : name)                                    (* unset n *)
 | CSetParams (ps : list str)                           (* set -- ps *)
 | CExec (temps : list (name * value))                  (* [a=v] /bin/prog   : an external utility *)
-| CRead (temps : list (name * value)) (n : name) (line : str).
+| CRead (temps : list (name * value)) (n : name) (line : str)
                                                        (* [a=v] read n <<E  : a regular built-in that
                                                           assigns n with Scope::Global; a read-only
                                                           error only makes it fail *)
+| CFor (n : name) (vals : list str) (body : list cmd)  (* for n in vals; do body; done : n is assigned
+                                                          with Scope::Global before every round *)
+| CReturn.                                             (* return : leaves the innermost function; only
+                                                          meaningful directly in a function body *)
+
+(* the part of a function body that runs: up to the first `return` *)
+Fixpoint cut_return (l : list cmd) : list cmd :=
+  match l with
+  | [] => []
+  | CReturn :: _ => []
+  | c :: l => c :: cut_return l
+  end.
 
 Inductive errmode :=
 | EIgnore         (* no error possible / the command goes on *)
@@ -438,7 +461,13 @@ Fixpoint compile (c : cmd) : list instr :=
       IOp (OPush CVolatile) EIgnore :: temp_volatile temps ++ [IObsEnv; IOp OPop EIgnore]
   | CCall temps body args =>
       IOp (OPush CVolatile) EIgnore :: temp_volatile temps
-      ++ IOp (OPush (CRegular args)) EIgnore :: flat_map compile body
+      ++ IOp (OPush (CRegular args)) EIgnore
+         :: (fix body_instrs (l : list cmd) : list instr :=        (* = flat_map compile (cut_return body) *)
+               match l with
+               | [] => []
+               | CReturn :: _ => []
+               | c :: l' => compile c ++ body_instrs l'
+               end) body
       ++ [IOp OPop EIgnore; IOp OPop EIgnore]
   | CTypeset temps g x r n v =>
       let sc := if g then SGlobal else SLocal in
@@ -457,6 +486,10 @@ Fixpoint compile (c : cmd) : list instr :=
   | CRead temps n line =>
       IOp (OPush CVolatile) EIgnore :: temp_volatile temps
       ++ [IOp (OGetOrNew n SGlobal [MAssign (Scalar line) (Some 0%N)]) EIgnore; IOp OPop EIgnore]
+  | CFor n vals body =>
+      flat_map (fun v => IOp (OGetOrNew n SGlobal [MAssign (Scalar v) (Some 0%N)]) EFatal
+                         :: flat_map compile body) vals
+  | CReturn => []
   end.
 
 Definition compile_script (cs : list cmd) : list instr := flat_map compile cs.
